@@ -1,24 +1,46 @@
 /-
   C05 — BGV/BFV evaluation is an exact ring homomorphism modulo t.
 
-  Model: `Lattigo.BGV.step` (lean/Lattigo/Model/BGV.lean), executed by the driver on every tie line of
-  harness/c05.go.  A register carries level, degree, scale and the raw slots; `msg r = slots·scale⁻¹`
-  is what `Decoder.Decode(Decrypt(ct))` returns.  All theorems are for every prime plaintext modulus
-  `t < 2^64`, every chain `qs` none of whose primes is ≡ 0 mod t, every slot count and all register
-  contents.
+  Model: `Lattigo.BGV.step` (lean/Lattigo/Model/BGV.lean), executed by the driver on every `C05 step` tie line of
+  harness/c05.go.  A register carries level, degree, scale and the raw slots; `msg r = slots·scale⁻¹ ∈ Z_t^n` is what
+  `Decoder.Decode(Decrypt(ct))` returns.  The model follows /repo HEAD, i.e. the code AFTER the `fix:` commits C05-1 … C05-10,
+  C13-1, C09-2 and c4c05cd (scale-invariant `Rescale` copies op0).
 
-  What is NOT covered here (stated once): the link between a register and the RNS limbs of the
-  ciphertext is the abstract phase identity `phase_*` below (over any commutative ring) plus the
-  differential check against the real decryptor (tie lines); the noise budget is a hypothesis of the
-  property and is enforced by the harness with an a-priori bound.
+  PROVED FOR ALL INPUTS (every prime `t < 2^64`, every chain none of whose primes is ≡ 0 mod t, every slot count, all
+  register contents, every operand kind and receiver placement):
+    * scale algebra: `matchScales_spec` (the Euclid loop as coded: `r0·s0 ≡ r1·s1`, both units), `match_contract`
+      (MatchScalesAndLevel: EQUAL recorded scales, common level, degrees and decoded messages unchanged),
+      `rescale_scale`, `rescale_scale_invariant`, `mul_scale`, `mul_scale_invariant`, `kSI_spec` (`t ∣ 1 + k·Q_ℓ`),
+      `meta_*` (level/degree/scale of every result, decision logic stated outright), `inv_mul`/`modExp_fermat`;
+    * `step_sound` / `program_sound`: decoding with the RECORDED scale gives the slot-wise Z_t result, for every
+      single-result op and, by induction, for straight-line programs; `errors_*`: the documented refusals are `err`;
+    * the link to ciphertext limbs, as identities over EVERY commutative ring — instantiated in C05Ring at the RNS ring
+      `WFPoly qs n` of C01 —: `phase_add`, `phase_mul`, `phase_mul_noise`, `phase_match`, and for the scale-invariant
+      (BFV) tensoring `phase_mul_si` (exact decomposition of `T·ct₀⊗ct₁` into `Q·(encoding of k·m₀m₁ + noise) +
+      remainder`) with `round_div_error` / `floor_div_error` (what dividing by `Q` and rounding does to one coefficient).
+
+  TIED ONLY (model = implementation on the explored inputs): that the real evaluator's limbs decrypt and decode to the
+  register the model computes (level, degree, scale, decoded slots) — 2 400 `step` lines per quick run incl. `out=inp1`,
+  malformed calls, all operand kinds; `match` lines (the pair `(r0, r1)` of `matchScalesBinary`).
+
+  NOT COVERED: (1) no limb-level model of the evaluator: `Add/Sub/Mul/Rescale` on RNS limbs are not shown to refine
+  `step` (the phase identities + C01 kernels + the C07 round trip are the ingredients; the composition, which needs the
+  noise bound as an invariant, is not assembled); (2) the noise budget is a hypothesis of the property: the harness enforces
+  an a-priori bound, nothing is proved about noise growth (`phase_mul_noise`, `phase_mul_si` give the exact noise TERMS,
+  not norms); (3) `Err.outside` cases (`DropLevel` below 0, `Relinearize` into degree 0) are outside the model;
+  (4) known finding C05-scale-matching-multiplies-by-uncentred-representative is a noise property, invisible to `step`.
 -/
 import Lattigo.Proofs.BGVProgram
+import Lattigo.Proofs.BGVTensor
 import Lattigo.Proofs.EncoderTRound
 import Lattigo.Props.C05Ring
 import Mathlib.Tactic.NormNum.Prime
 
 namespace Lattigo.BGV.C05
 open Lattigo.BGV
+
+/-- a 3-prime chain with `t = 257` used in the examples -/
+def cEx0 : Cfg := { t := 257, qs := [65537, 12289, 40961], n := 2, si := false, rlk := true }
 
 /-! ## scale_algebra -/
 
@@ -132,6 +154,47 @@ theorem meta_match (c : Cfg) [Fact c.t.Prime] (ht : c.t < 2 ^ 64) (o : Out) (a b
   have := matchOp_sound c ht a b r1 r2 ha hb h
   exact ⟨this.1, this.2.1, this.2.2.1, this.2.2.2.2.2.1, this.2.2.2.2.2.2⟩
 
+/-- **match_contract** (`MatchScalesAndLevel(ct0, ct1)`): afterwards both ciphertexts carry THE SAME recorded scale
+    (equal as `uint64`, not only modulo `t`), sit at the common level `min(ℓ0, ℓ1)`, keep their degrees, and decode —
+    each with its new recorded scale — to the messages they held before.  (A variant recording `scale·|r|` with the
+    centred factor while multiplying the limbs by `r` breaks the last clause: the tie lines and the probe
+    `match_decode` exhibit it.) -/
+theorem match_contract (c : Cfg) [Fact c.t.Prime] (ht : c.t < 2 ^ 64) (o : Out) (a b r1 r2 : Reg)
+    (ha : (a.scale : ZMod c.t) ≠ 0) (hb : (b.scale : ZMod c.t) ≠ 0)
+    (h : step c .matchSL o a (.reg b) = .ok [r1, r2]) :
+    r1.scale = r2.scale ∧ r1.level = min a.level b.level ∧ r2.level = min a.level b.level
+    ∧ r1.degree = a.degree ∧ r2.degree = b.degree ∧ msg c.t r1 = msg c.t a ∧ msg c.t r2 = msg c.t b := by
+  have hs := matchOp_sound c ht a b r1 r2 ha hb h
+  have h' : matchOp c a b = .ok [r1, r2] := h
+  unfold matchOp at h'
+  simp only at h'
+  cases h'
+  refine ⟨?_, rfl, rfl, rfl, rfl, hs.1, hs.2.1⟩
+  have := (ZMod.natCast_eq_natCast_iff' _ _ _).mp hs.2.2.1
+  simpa [Nat.mod_mod] using this
+
+example : step cEx0 .matchSL .inp { level := 2, degree := 1, scale := 3, slots := [6, 9] }
+      (.reg { level := 1, degree := 2, scale := 5, slots := [10, 20] })
+    = .ok [{ level := 1, degree := 1, scale := 15, slots := [30, 45] },
+           { level := 1, degree := 2, scale := 15, slots := [30, 60] }] := by decide +kernel
+
+/-- `MulThenAdd` / `MulRelinThenAdd` with an element operand: level, degree and the scale bookkeeping of the
+    accumulator (kept if it already equals `s0·s1`, multiplied by the `matchScalesBinary` factor otherwise) -/
+theorem meta_mta (c : Cfg) (relin : Bool) (a b R r : Reg) (lvl : Nat) (h : accReg c relin a b R lvl = .ok [r]) :
+    r.level = lvl ∧ r.degree = accDegree relin a b R
+    ∧ r.scale = (if R.scale = a.scale * b.scale % c.t then R.scale
+                 else R.scale * (matchScales c.t (a.scale * b.scale % c.t) R.scale).2 % c.t) := by
+  unfold accReg at h
+  by_cases h1 : a.degree = 0
+  · rw [if_pos h1] at h; cases h
+  · rw [if_neg h1] at h
+    by_cases h2 : (a.degree = 1 ∧ b.degree = 1) ∧ relin = true ∧ c.rlk = false
+    · rw [if_pos h2] at h; cases h
+    · rw [if_neg h2] at h
+      by_cases heq : R.scale = a.scale * b.scale % c.t
+      · rw [if_pos heq] at h; simp only [ok1] at h; cases h; simp [heq]
+      · rw [if_neg heq] at h; simp only [ok1] at h; cases h; simp [heq]
+
 /-! ## errors_spec: the documented failure conditions give `err` -/
 
 /-- plaintext-only operands (`InitOutputBinaryOp`: total degree 0) -/
@@ -214,6 +277,17 @@ instance : Fact (Nat.Prime cEx.t) := ⟨by norm_num [cEx]⟩
 
 example : ((run cEx progEx rfEx).toOption.bind fun rf => (rf.map (val cEx.t))[3]?) = some [42, 130] := by
   decide +kernel
+
+theorem cEx_hQ : ∀ q ∈ cEx.qs, (q : ZMod cEx.t) ≠ 0 := by
+  intro q hq
+  simp [cEx] at hq
+  rcases hq with rfl | rfl | rfl <;> decide
+
+/-- `kSI_spec` on the example chain, FROM THE THEOREM; and the value: `k = 216` at level 1 -/
+example : cEx.t ∣ 1 + inv cEx.t (cEx.t - qModT cEx 1) * (cEx.qs.take 2).prod :=
+  kSI_spec cEx (by decide) cEx_hQ 1
+
+example : inv cEx.t (cEx.t - qModT cEx 1) = 216 ∧ (1 + 216 * (65537 * 12289)) % 257 = 0 := by decide +kernel
 
 example : AllGood cEx.t rfEx := by
   intro r hr
@@ -300,6 +374,38 @@ theorem val_ofDecoded (t level degree scale : Nat) (v : List Nat) (ht : t.Prime)
 
 example : 7 * inv 257 7 % 257 = 1 ∧ val 257 (Reg.ofDecoded 257 2 1 7 [5, 258]) = [5, 1] := by decide +kernel
 
+/-! ## scale-invariant (BFV-style) tensoring -/
+
+/-- **kSI_spec**: the factor `k = inv t (t − Q_ℓ mod t)` that `tensorScaleInvariant` / `MulScaleInvariant` put on the scale
+    (`mul_scale_invariant`) is `(−Q_ℓ)⁻¹ mod t`: `t ∣ 1 + k·Q_ℓ`, so `T⁻¹ mod Q_ℓ = (1 + k·Q_ℓ)/t` as an integer. -/
+theorem kSI_spec (c : Cfg) [Fact c.t.Prime] (ht : c.t < 2 ^ 64) (hQ : ∀ q ∈ c.qs, (q : ZMod c.t) ≠ 0) (l : Nat) :
+    c.t ∣ 1 + inv c.t (c.t - qModT c l) * (c.qs.take (l + 1)).prod :=
+  Lattigo.BGV.kSI_spec c ht hQ l
+
+/-- **phase_mul_si** (exactness of the scale-invariant tensoring, before the division): over any commutative ring,
+    with `T·T⁻¹ = 1 + k·Q` (`kSI_spec`),
+    `T·(T⁻¹x₀+e₀)(T⁻¹x₁+e₁) = Q·(T⁻¹·(k·x₀x₁) + k(x₀e₁+x₁e₀)) + (T⁻¹x₀x₁ + x₀e₁+x₁e₀ + T·e₀e₁)`.
+    The quotient by `Q` is the `T⁻¹`-encoding of `k·x₀x₁` (the factor `k` of `tensorSI` on slots and scale) with noise
+    `k(x₀e₁+x₁e₀)`; the remainder `R` costs at most `‖R‖/Q + 1/2` per coefficient after rounding (`round_div_error`). -/
+theorem phase_mul_si {α : Type} [CommRing α] (T Tinv k Q x0 x1 e0 e1 : α) (h : T * Tinv = 1 + k * Q) :
+    T * (Tinv * x0 + e0) * (Tinv * x1 + e1)
+      = Q * (Tinv * (k * (x0 * x1)) + k * (x0 * e1 + x1 * e0))
+        + (Tinv * (x0 * x1) + (x0 * e1 + x1 * e0) + T * e0 * e1) :=
+  Lattigo.BGV.phase_mul_si T Tinv k Q x0 x1 e0 e1 h
+
+/-- rounding `A = Q·B + R` to `⌊(2A+Q)/(2Q)⌋` with `|R| ≤ M`: `2Q·|result − B| ≤ 2M + Q` -/
+theorem round_div_error (A B R Q M : ℤ) (hQ : 0 < Q) (h : A = Q * B + R) (hlo : -M ≤ R) (hhi : R ≤ M) :
+    -(2 * M + Q) ≤ 2 * Q * ((2 * A + Q) / (2 * Q) - B) ∧ 2 * Q * ((2 * A + Q) / (2 * Q) - B) ≤ 2 * M + Q :=
+  Lattigo.BGV.round_div_error A B R Q M hQ h hlo hhi
+
+theorem floor_div_error (A B R Q : ℤ) (hQ : 0 < Q) (h : A = Q * B + R) : A / Q = B + R / Q :=
+  Lattigo.BGV.floor_div_error A B R Q hQ h
+
+/-- instance over `ℤ`: `t = 17`, `Q = 97`, `k = 7` (`1 + 7·97 = 680 = 17·40`), messages 3, 5, noises 2, −1 -/
+example : (17 : ℤ) * (40 * 3 + 2) * (40 * 5 + -1)
+    = 97 * (40 * (7 * (3 * 5)) + 7 * (3 * -1 + 5 * 2)) + (40 * (3 * 5) + (3 * -1 + 5 * 2) + 17 * 2 * -1) :=
+  phase_mul_si 17 40 7 97 3 5 2 (-1) (by norm_num)
+
 /-! ## abstract phase identities (link to ciphertexts): phase(ct) = T⁻¹·Δ·m + e over any commutative ring -/
 
 theorem phase_add {α : Type} [CommRing α] (Tinv Δ m1 m2 e1 e2 : α) :
@@ -334,6 +440,12 @@ end Lattigo.BGV.C05
 #print axioms Lattigo.BGV.C05.meta_relin
 #print axioms Lattigo.BGV.C05.meta_drop
 #print axioms Lattigo.BGV.C05.meta_match
+#print axioms Lattigo.BGV.C05.match_contract
+#print axioms Lattigo.BGV.C05.meta_mta
+#print axioms Lattigo.BGV.C05.kSI_spec
+#print axioms Lattigo.BGV.C05.phase_mul_si
+#print axioms Lattigo.BGV.C05.round_div_error
+#print axioms Lattigo.BGV.C05.floor_div_error
 #print axioms Lattigo.BGV.C05.errors_plaintext_only
 #print axioms Lattigo.BGV.C05.errors_degree_too_high
 #print axioms Lattigo.BGV.C05.errors_rescale
